@@ -489,7 +489,11 @@ impl Scenario for In {
         if let Some(e) = &self.conn.parse_err {
             return Err(Violation::new("wire-garbage", self.cfg.ep.label(), format!("{e}; {}", self.detail())));
         }
-        crate::inbound_oracles::step_check(self)
+        crate::inbound_oracles::step_check(self)?;
+        if _quiescent && self.cfg.judge & J_C12 != 0 {
+            crate::c12::stall_check(self)?;
+        }
+        Ok(())
     }
 
     fn drain(&mut self) -> bool {
